@@ -271,7 +271,11 @@ class FGen:
             lets = []
             for i in range(self.rng.choice([0, 1, 1, 2])):
                 var = "_t%d" % i
-                if cfg.get("try") and self.rng.random() < cfg.get("p_try", 0.3):
+                if cfg.get("p_guard") and self.rng.random() < cfg["p_guard"]:
+                    e = self.expr(depth - 1)
+                    side = list(e) if self.rng.random() < 0.5 else self.expr(depth - 1)
+                    lets.append(["guard", var, e, side, self.rng.choice(["reraise", "finally"])])
+                elif cfg.get("try") and self.rng.random() < cfg.get("p_try", 0.3):
                     lets.append(["try", var, self.expr(depth - 1), ["c", self.rng.choice(PRIMES)]])
                 else:
                     lets.append([var, self.expr(depth - 1)])
